@@ -154,7 +154,7 @@ def drive(mod, prop, tier, seed, scratch, replay, t0):
             if len(merged["samples"]) < 8:
                 merged["samples"].append(s)
         for k, v in rep["violations"].items():
-            m = merged["violations"].setdefault(k, {"count": 0, "msg": v["msg"], "cases": []})
+            m = merged["violations"].setdefault(k, {"count": 0, "msg": v["msg"], "cases": [], "host_tz": rep.get("host_tz")})
             m["count"] += v["count"]
             m["cases"].extend(v["cases"][: max(0, 3 - len(m["cases"]))])
         for k, v in rep["counters"].items():
@@ -223,7 +223,7 @@ def drive(mod, prop, tier, seed, scratch, replay, t0):
         rpath = os.path.join(rdir, safe_name(key) + ".json")
         with open(rpath, "w") as f:
             json.dump({"property": prop, "key": key, "msg": v["msg"], "count": v["count"],
-                       "seed": seed, "tier": tier, "case": v["cases"][0] if v["cases"] else None,
+                       "seed": seed, "tier": tier, "host_tz": v.get("host_tz"), "case": v["cases"][0] if v["cases"] else None,
                        "more_cases": v["cases"][1:]}, f, indent=1)
         lines.append(f"VIOLATION property={prop} replay={rpath}")
         lines.append(f"  key={key} count={v['count']} :: {v['msg'][:300]}")
